@@ -224,6 +224,10 @@ func checkRegexGrammarDocs(c *Ctx, rule string) {
 			switch fn.Name() {
 			case "Map":
 				return base, nil
+			case "Bind":
+				// a restriction of the operand (ExcludeRunes): a smaller language than the operand's, so not the documented
+				// non-terminal any more; it stands as a symbol of its own
+				return symNode(a, gsym{"restricted(" + types.ExprString(e) + ")", false}), nil
 			case "CONCAT":
 				ns := []*rnode{base}
 				for _, arg := range v.Args {
